@@ -644,7 +644,8 @@ func (s *PersistentHybridIndex) maybeScheduleFlush() {
 	}
 }
 
-// Flush forces a flush of all frozen memtables to disk.
+// Flush forces a flush of all memtables to disk, including the documents that are
+// still in the writable memtable (it is rotated first if it holds any).
 // This is synchronous and blocks until flush completes.
 //
 // Returns:
@@ -656,6 +657,10 @@ func (s *PersistentHybridIndex) Flush() error {
 		return fmt.Errorf("storage is closed")
 	}
 	s.mu.RUnlock()
+
+	// Freeze the writable memtable too: everything added before this call must be
+	// on disk when it returns
+	s.memtableQueue.rotateIfNotEmpty()
 
 	return s.flushMemtables()
 }
@@ -877,6 +882,14 @@ func (s *PersistentHybridIndex) Close() error {
 	// Wait for workers to finish
 	s.wg.Wait()
 	verifPoint("close.workers-stopped")
+
+	// Final flush: the workers only write frozen memtables, so persist whatever is
+	// still in the writable one
+	s.memtableQueue.rotateIfNotEmpty()
+	if err := s.flushMemtables(); err != nil {
+		s.provider.close()
+		return fmt.Errorf("failed to flush on close: %w", err)
+	}
 
 	// Close provider (releases lock)
 	if err := s.provider.close(); err != nil {
